@@ -6,6 +6,7 @@ import (
 	"bytes"
 	"context"
 	"crypto/rand"
+	"encoding/base64"
 	"encoding/json"
 	"errors"
 	"fmt"
@@ -180,6 +181,13 @@ func Sweep(r *ev.Run, prop string, maxRegions int, builds int) {
 							calls := cloud.Calls()
 							canGenerate := len(failGen) < len(regions)
 							desc := fmt.Sprintf("v%d wrap, regions=%v preferred=%s failGenerate=%v failEncrypt=%v", wv, regions, pref, failGen, failEnc)
+							// the data key of this wrap, as KMS generated it (the fakes keep a private copy)
+							var dataKey []byte
+							for _, reg := range cloud.Regions {
+								if n := len(reg.HandedCopies); n > 0 {
+									dataKey = reg.HandedCopies[n-1]
+								}
+							}
 							// who generated?
 							gen := ""
 							firstGen := ""
@@ -264,6 +272,26 @@ func Sweep(r *ev.Run, prop string, maxRegions int, builds int) {
 							if len(en.KMSKEKs) == 0 {
 								report("wrap-succeeded-with-empty-envelope:v"+fmt.Sprint(wv), "%s: EncryptKey reported success with an envelope that has no regional entry", desc)
 								continue
+							}
+							// the envelope itself: the wrapped system key opens under the generated data key (and not under an
+							// all-zero key), every regional entry is that region's wrapping of exactly this data key, and the
+							// data key does not appear in the envelope in the clear
+							if dataKey != nil {
+								if bytes.Contains(env, []byte(base64.StdEncoding.EncodeToString(dataKey))) || bytes.Contains(env, dataKey) {
+									report("envelope-contains-plaintext-data-key:v"+fmt.Sprint(wv), "%s: the envelope carries the data key in the clear", desc)
+								}
+								if out, derr := crypto.AEAD.Decrypt(en.EncryptedKey, make([]byte, 32)); derr == nil && bytes.Equal(out, skCopy) {
+									report("envelope-wrapped-under-zero-key:v"+fmt.Sprint(wv), "%s: the system key in the envelope opens under an all-zero key", desc)
+								}
+								if out, derr := crypto.AEAD.Decrypt(en.EncryptedKey, dataKey); derr != nil || !bytes.Equal(out, skCopy) {
+									report("envelope-not-under-data-key:v"+fmt.Sprint(wv), "%s: the system key in the envelope does not open under the data key KMS generated: %v", desc, derr)
+								}
+								for _, k := range en.KMSKEKs {
+									pt, oerr := cloud.Regions[k.Region].Open(k.EncryptedKEK)
+									if oerr != nil || !bytes.Equal(pt, dataKey) {
+										report("envelope-entry-not-a-wrapping-of-the-data-key:v"+fmt.Sprint(wv), "%s: the entry for %s is not that region's wrapping of the generated data key (%v)", desc, k.Region, oerr)
+									}
+								}
 							}
 							var got []string
 							for _, k := range en.KMSKEKs {
